@@ -46,10 +46,14 @@ class EliminateVariable:
 
     def global_mutations(self, node, input_):
         ops = node[1:]
-        targets = list(filter(lambda n: n.is_leaf(), ops))
+        # constants are leaves as well, but they are not variables
+        targets = list(filter(lambda n: n.is_leaf() and not is_const(n), ops))
         for t in targets:
             for c in ops:
                 if c == t:
+                    continue
+                if is_defined_fun(c):
+                    # Avoid cycles with smtlib.InlineDefinedFuns
                     continue
                 if t in nodes.dfs(c):
                     # Avoid cycles (for example with core.ReplaceByChild)
